@@ -24,6 +24,8 @@ var c05battery = []string{
 	`(begin (defn nw [q] (+ q 1)) (nw 1))`,
 	`(begin (def z 0) (for [(def i 0) (< i 5) (set i (+ i 1))] (cond (== i 2) (break) nil) (set z (+ z 1))) z)`,
 	`(let [a 1] (newScope (+ a 1)))`,
+	`(pz)`,
+	`(pz)`,
 	``,
 }
 
@@ -35,6 +37,8 @@ func c05extraCtx() []gen.Ctx {
 	return []gen.Ctx{
 		tmpl("lazy-force", 1, `((fn [#z] (force #z)) $1)`),
 		tmpl("lazy-force2", 1, `((fn [#z] (list (force #z) (force #z))) $1)`),
+		tmpl("lazy-closure", 1, `(begin (def pz ((fn [#z] (fn [] (force #z))) $1)) (pz))`),
+		tmpl("lazy-closure-twice", 1, `(begin (def pz ((fn [#z] (fn [] (force #z))) $1)) (list (pz) (pz)))`),
 		tmpl("fn-in-for", 1, `(begin (defn k [x] $1) (for [(def i 0) (< i 2) (set i (+ i 1))] (k i)) a)`),
 		tmpl("deep-call", 1, `(begin (defn k [x] (cond (== x 0) $1 (+ 1 (k (- x 1))))) (k 3))`),
 		tmpl("tail-deep", 1, `(begin (defn k [x] (cond (== x 0) $1 (k (- x 1)))) (k 3))`),
@@ -252,7 +256,7 @@ func init() {
 		ID:    "C05",
 		Level: "fault_enumeration",
 		Rule: "fault points = calls of the host function h inside programs of the C02 grammar (+ lazy forcing, deep/tail recursion, loops in functions): default run counts N calls, then every k<=N x {returned error, Go panic in the builtin} is re-run on a fresh interpreter " +
-			"(thorough: + a second failing evaluation during the follow-ups); oracle = reference evaluator run with the same fault: result, trace, stacks at rest, and a 17-item follow-up battery; " +
+			"(thorough: + a second failing evaluation during the follow-ups); oracle = reference evaluator run with the same fault: result, trace, stacks at rest, and a 19-item follow-up battery; " +
 			"plus statically placed failures: 14 malformed forms in every hole of every context and 8 unparsable texts; distinct_nontrivial = distinct (shape, fault, trace, battery) tuples with k>0",
 		Assumptions: []string{"R1 keeps the global effects completed before the fault, which is the specification of 'definitions completed before the failure intact'",
 			"for statically placed failures only follow-ups independent of partial execution are judged"},
